@@ -4,6 +4,7 @@
 package c07
 
 import (
+	"crypto/sha1"
 	"encoding/json"
 	"fmt"
 	"net"
@@ -52,8 +53,22 @@ func alphabet() []opDesc {
 			}
 		}
 	}
+	// a message near the size limit: the store path, the reply-size cap and the replay must cope with it
+	ops = append(ops, opDesc{"pub", "a/b/", "retain+ttl+big", true})
 	ops = append(ops, opDesc{"will", "a/", "retain", true}, opDesc{"will", "a/", "retain", false}, opDesc{"will", "a/b/", "plain", true})
 	return ops
+}
+
+// bigPayload: above the usual buffer thresholds (4 KiB, 8 KiB), small enough that six of them stay below the 64 KiB
+// reply-size cap of a history query (that cap is C06's subject; the deepest history here has six publishes)
+const bigPayload = 10000
+
+// short abbreviates a padded payload to "<head>..#<length>" so that comparisons stay exact and messages readable.
+func short(p string) string {
+	if len(p) <= 64 {
+		return p
+	}
+	return fmt.Sprintf("%s..#%d:%x", p[:8], len(p), sha1.Sum([]byte(p)))
 }
 
 type stored struct {
@@ -152,6 +167,9 @@ func (in *inst) Apply(i int) {
 	in.hist = append(in.hist, o)
 	in.seq++
 	payload := fmt.Sprintf("m%d", in.seq)
+	if strings.Contains(o.Mode, "big") {
+		payload += strings.Repeat("#", bigPayload)
+	}
 	key := in.kNo
 	if o.Store {
 		key = in.kStore
@@ -208,7 +226,7 @@ func (in *inst) expected(p probe) []string {
 	var match []string
 	for _, m := range in.model {
 		if refmodel.MatchEmitter(refmodel.Levels(p.F), refmodel.Levels(m.Ch)) {
-			match = append(match, in.pfx+m.Ch+"="+m.Payload)
+			match = append(match, in.pfx+m.Ch+"="+short(m.Payload))
 		}
 	}
 	if len(match) > n {
@@ -267,7 +285,7 @@ func (in *inst) runProbe(p probe) (string, string) {
 			if seenAck {
 				return "replay-after-suback", fmt.Sprintf("stored message %s=%s arrived after the SUBACK", q.Topic, q.Payload)
 			}
-			before = append(before, q.Topic+"="+string(q.Payload))
+			before = append(before, q.Topic+"="+short(string(q.Payload)))
 		}
 		want := in.expected(p)
 		g, w := append([]string(nil), before...), append([]string(nil), want...)
@@ -328,11 +346,11 @@ func (in *inst) Check() (string, string) {
 			return in.sig("store-query-error"), err.Error()
 		}
 		for _, m := range fr {
-			got = append(got, fmt.Sprintf("%s=%s ttl=%d contract=%d", m.Channel, m.Payload, m.TTL, m.Contract()))
+			got = append(got, fmt.Sprintf("%s=%s ttl=%d contract=%d", m.Channel, short(string(m.Payload)), m.TTL, m.Contract()))
 		}
 	}
 	for _, m := range in.model {
-		want = append(want, fmt.Sprintf("%s=%s ttl=%d contract=%d", in.pfx+m.Ch, m.Payload, m.TTL, in.env.License.Contract()))
+		want = append(want, fmt.Sprintf("%s=%s ttl=%d contract=%d", in.pfx+m.Ch, short(m.Payload), m.TTL, in.env.License.Contract()))
 	}
 	sort.Strings(got)
 	sort.Strings(want)
